@@ -13,7 +13,8 @@
 //!                                      t|p = Err, hash:<id> = another block's data, pow = a header failing PoW, height|work = claimed
 //!                                      height / chainwork off by one, merkle = full block with a wrong merkle root. The model gets the RAW
 //!                                      answer and must itself refuse it (translated Validate layer + check_builds_on).
-//!   poll <fingerprint>                 => "<common|better|worse|err> <tip|-> <0|1> r<requests the source saw> | D <id> <h> C <id> <h> …"
+//!   poll <fingerprint>                 => "<common|better|worse> <tip|-> <0|1> r<requests the source saw> | D <id> <h> C <id> <h> …"
+//!                                      or "err <t|p> r<requests>" with the BlockSourceErrorKind (transient / persistent) of the returned error
 //!   init <id:height:p1,p2,-,…>…        => "ok <best> r<requests> cache <ids…> | <listener 0 notifs> | …"  or "err r<requests> | …"
 use ldk_verif_harness::common::*;
 use bitcoin::absolute::LockTime;
@@ -25,7 +26,7 @@ use bitcoin::{Amount, BlockHash, Network, OutPoint, ScriptBuf, Sequence, TxMerkl
 use lightning::chain::{self, BlockLocator};
 use lightning_block_sync::poll::{ChainPoller, ChainTip, Validate, ValidatedBlockHeader};
 use lightning_block_sync::{
-	init, BlockData, BlockHeaderData, BlockSource, BlockSourceError, BlockSourceResult, HeaderCache, SpvClient,
+	init, BlockData, BlockHeaderData, BlockSource, BlockSourceError, BlockSourceErrorKind, BlockSourceResult, HeaderCache, SpvClient,
 	HEADER_CACHE_LIMIT,
 };
 use std::collections::{BTreeMap, BTreeSet, HashMap};
@@ -88,12 +89,12 @@ impl Tree {
 #[derive(Clone, Copy, Debug, PartialEq)]
 enum Fail { Transient, Persistent, BadHash, BadPow, BadHeight, BadWork, BadMerkle }
 
-struct SrcState { req: usize, sched: BTreeMap<usize, Fail>, hidden: BTreeSet<usize>, best: usize, last_was_best: bool, init_mode: bool, triggered: Vec<(usize, String, String)> }
+struct SrcState { req: usize, sched: BTreeMap<usize, Fail>, hidden: BTreeSet<usize>, best: usize, last_was_best: bool, init_mode: bool, triggered: Vec<(usize, String, String)>, tip_claim: Option<(u32, u128)> }
 
 struct Source<'a> { tree: &'a Tree, st: Mutex<SrcState> }
 
 impl<'a> Source<'a> {
-	fn new(tree: &'a Tree) -> Self { Source { tree, st: Mutex::new(SrcState { req: 0, sched: BTreeMap::new(), hidden: BTreeSet::new(), best: 1, last_was_best: false, init_mode: false, triggered: vec![] }) } }
+	fn new(tree: &'a Tree) -> Self { Source { tree, st: Mutex::new(SrcState { req: 0, sched: BTreeMap::new(), hidden: BTreeSet::new(), best: 1, last_was_best: false, init_mode: false, triggered: vec![], tip_claim: None }) } }
 	/// next request index and the failure (if any) scheduled for it
 	fn next(&self, st: &mut SrcState) -> Option<Fail> { let k = st.req; st.req += 1; st.sched.get(&k).copied() }
 	fn some_other(&self, id: usize) -> usize { if id > 1 { id - 1 } else if self.tree.blocks.len() > 1 { 2 } else { 1 } }
@@ -128,6 +129,7 @@ impl<'a> BlockSource for Source<'a> {
 				}
 			}
 			if st.hidden.contains(&id) { return Err(perr("header not found")); }
+			if after_best { if let Some((dh, dw)) = st.tip_claim { let mut d = self.tree.data(id); d.height += dh; d.chainwork = d.chainwork + work_of(dw); return Ok(d); } }
 			Ok(self.tree.data(id))
 		}
 	}
@@ -163,7 +165,7 @@ impl<'a> BlockSource for Source<'a> {
 			let k = st.req - 1;
 			st.last_was_best = true;
 			if let Some(f) = fail {
-				st.triggered.push((k, format!("{:?}", f), "t".into()));
+				st.triggered.push((k, format!("{:?}", f), if f == Fail::Transient { "t".into() } else { "p".into() }));
 				return Err(if f == Fail::Transient { terr("unresponsive") } else { perr("refused") });
 			}
 			let b = self.tree.get(st.best);
@@ -304,7 +306,7 @@ fn run_polls<'s, 't>(c: &mut Case, g: &mut Gen, t: &'t Tree, client: &mut SpvCli
 		let op = format!("poll {:x}", c.fp);
 		let (head, kind) = match &r {
 			Err(p) => (format!("panic {}", p), "panic".to_string()),
-			Ok(Err(_)) => ("err".to_string(), "err".to_string()),
+			Ok(Err(e)) => (format!("err {}", if e.kind() == BlockSourceErrorKind::Transient { "t" } else { "p" }), "err".to_string()),
 			Ok(Ok((ChainTip::Common, b))) => (format!("common - {}", *b as u8), "common".to_string()),
 			Ok(Ok((ChainTip::Better(h), b))) => (format!("better {} {}", t.by_hash[&h.header.block_hash()], *b as u8), "better".to_string()),
 			Ok(Ok((ChainTip::Worse(h), b))) => (format!("worse {} {}", t.by_hash[&h.header.block_hash()], *b as u8), "worse".to_string()),
@@ -339,6 +341,9 @@ fn run_polls<'s, 't>(c: &mut Case, g: &mut Gen, t: &'t Tree, client: &mut SpvCli
 		let class = format!("poll:{}{}{}", kind,
 			if kind == "better" { format!(":reorg-depth-{}", depth_bucket(fork_depth)) } else { String::new() },
 			if kind == "worse" && t.get(best).work == t.get(before).work { ":equal-work" } else { "" });
+		// the tip rule is by CHAINWORK, not height: branches carry different per-block work, so these two classes must be populated
+		if kind == "worse" && t.get(best).height > t.get(before).height { *c.rec.classes.entry("poll+worse-although-longer(lighter fork)".to_string()).or_insert(0) += 1; }
+		if kind == "better" && t.get(best).height <= t.get(before).height { *c.rec.classes.entry("poll+better-although-not-longer(heavier fork)".to_string()).or_insert(0) += 1; }
 		if let Some((_, f)) = triggered.first() { *c.rec.classes.entry(format!("poll+source-failure:{}", f)).or_insert(0) += 1; }
 		if !hidden.is_empty() { *c.rec.classes.entry("poll+hidden-blocks".to_string()).or_insert(0) += 1; }
 		if evs.iter().any(|e| matches!(e, Ev::Conn(_, _, true))) { *c.rec.classes.entry("poll+full-block-connected".to_string()).or_insert(0) += 1; }
@@ -441,6 +446,29 @@ fn run_init<'t>(c: &mut Case, g: &mut Gen, t: &'t Tree, src: &Source, stats: &mu
 	c.rec.case(&op, ans.trim_end(), &class, true);
 	c.fp = c.fp.wrapping_mul(0x100000001b3) ^ fnv64(&ans) ^ fnv64(&op);
 	ret
+}
+
+/// PROBE (implementation only, not part of the correspondence; reported in the notes): the source serves the REAL header of the
+/// new tip but CLAIMS a wrong height / chainwork for it (`BlockHeaderData.{height, chainwork}` are not covered by the hash).
+/// `poll_chain_tip` validates PoW + hash only; when the tip's parent is in the header cache `ChainNotifier::look_up_previous_header`
+/// answers from the cache without `check_builds_on`, so nothing ever compares the claim with the predecessor.
+fn probe_tip_claims(g: &mut Gen) -> String {
+	let mut t = Tree::new();
+	let gen = t.mine(0, BITS[0], false);
+	let c3 = g.extend(&mut t, gen, 3, true);
+	let (c1, c2) = (t.get(t.get(c3).parent).parent, t.get(c3).parent);
+	let src = Source::new(&t);
+	let listener = RecListener::new(&t);
+	let mut client = SpvClient::new(t.validated(c1), ChainPoller::new(&src, Network::Regtest), HeaderCache::new(), &listener);
+	{ let mut st = src.st.lock().unwrap(); st.best = c2; }
+	let r1 = guarded(AssertUnwindSafe(|| block_on(client.poll_best_tip()).map(|x| x.1)));
+	let e1 = listener.take();
+	{ let mut st = src.st.lock().unwrap(); st.req = 0; st.best = c3; st.tip_claim = Some((5, 1000)); }
+	let r2 = guarded(AssertUnwindSafe(|| block_on(client.poll_best_tip()).map(|(tip, c)| (match tip { ChainTip::Better(h) => format!("Better(height {} chainwork {})", h.height, work_u128(h.chainwork)), ChainTip::Worse(_) => "Worse".into(), ChainTip::Common => "Common".into() }, c))));
+	let e2 = listener.take();
+	{ let mut st = src.st.lock().unwrap(); st.req = 0; st.tip_claim = None; }
+	format!("chain 1<-2<-3<-4 (heights 0..3, chainwork 2,4,6,8); client at 2; poll(best=3, honest) -> {:?} [{}]; poll(best=4, source claims height 3+5 and chainwork 8+1000 for the real header 4) -> {:?} [{}]  (true height of block 4 is 3)",
+		r1.map(|x| x.map_err(|_| "err")), show_evs(&e1), r2.map(|x| x.map_err(|_| "err")), show_evs(&e2))
 }
 
 fn one_case(rec: &mut Rec, g: &mut Gen, t: &Tree, stats: &mut Stats, polls: u64, fail_p: u64, force_start: Option<usize>, bitcoin: bool) {
@@ -558,6 +586,8 @@ fn main() {
 		*rec.classes.entry("case+retarget-tree".to_string()).or_insert(0) += 1;
 		one_case(&mut rec, &mut g, &t, &mut stats, 5, 3, Some(stem), true);
 	}
+	let probe = probe_tip_claims(&mut g);
+	rec.notes.insert("probe_tip_claims_not_checked".into(), probe);
 	rec.notes.insert("rule".into(), "every poll/init op is distinct by the fingerprint of its whole case history (tree, tips, schedules, earlier answers); non-trivial = the listener was notified or a scheduled source failure was hit".into());
 	rec.notes.insert("max_fork_depth".into(), format!("{} (HEADER_CACHE_LIMIT = {})", stats.max_fork_depth, HEADER_CACHE_LIMIT));
 	rec.notes.insert("polls_walking_the_source_past_the_cache".into(), stats.cache_miss_walks.to_string());
